@@ -265,7 +265,7 @@ type outcome struct {
 type SX struct {
 	c         *Ctx
 	MaxDepth  int
-	NoInline  map[string]bool // function names never inlined (kept as opaque calls)
+	NoInline  map[string]bool        // function names never inlined (kept as opaque calls)
 	ForceStep func(*types.Func) bool // calls recorded as effect steps even when pure (ordering matters to the rule)
 	addrTaken map[types.Object]bool
 	loopID    int
